@@ -142,7 +142,8 @@ def run(F, rep):
                 rep.ob("C14-ERR", "result of %s in %s is propagated" % (t["callee"].rsplit("::", 1)[-1], _short(k)),
                        fate in ("propagated", "returned"), detail="fate: %s" % fate, site=site_of(f, t),
                        key="C14-ERR | %s | %s" % (k, t["callee"]))
-    rep.floor("C14-AUDIT", n_sites, 12, "panic-capable / allocating / looping sites in the open path")
+    # without overflow checks (release configuration) the arithmetic sites carry no assertion in MIR
+    rep.floor("C14-AUDIT", n_sites, 12 if getattr(F, "cfg", "dev") != "rel" else 6, "panic-capable / allocating / looping sites in the open path")
     for key in table:
         if key not in used_table and key[0] in scope:
             rep.note("table entry no longer needed: %s | %s" % key)
